@@ -315,6 +315,24 @@ proof fn vac__must_go_on_chain_for(htlc: &HTLCOutputInCommitment, htlc_outbound:
     requires height <= 0x7fff_ffff, htlc.cltv_expiry <= 0x7fff_ffff,
     ensures false
 {}
+// ---- what a completed forward earned (deep R15 slice of ChannelManager::claim_funds_internal) ----
+fn forward_fee_earned(htlc_claim_value_msat: Option<u64>, forwarded_htlc_value_msat: u64) -> (r: Option<u64>)
+    requires
+    htlc_claim_value_msat is Some ==> htlc_claim_value_msat->Some_0 >= forwarded_htlc_value_msat,
+
+    ensures
+    r == (if htlc_claim_value_msat is Some { Some((htlc_claim_value_msat->Some_0 - forwarded_htlc_value_msat) as u64) } else { None::<u64> }),
+ { if let Some(claimed_htlc_value) = htlc_claim_value_msat {
+								Some(claimed_htlc_value - forwarded_htlc_value_msat)
+							} else {
+								None
+							} }
+
+proof fn vac__forward_fee_earned(htlc_claim_value_msat: Option<u64>, forwarded_htlc_value_msat: u64) 
+    requires // what forward admission established (internal_htlc_satisfies_config above): the amount claimed upstream covers the amount paid downstream htlc_claim_value_msat is Some ==> htlc_claim_value_msat->Some_0 >= forwarded_htlc_value_msat,
+    ensures false
+{}
+
 // ---- when a held (intercepted) forward is given up (deep R15 slice of do_chain_event's sweep over pending_intercepted_htlcs) ----
 pub struct PendingHTLCInfo { pub outgoing_cltv_value: u32 }
 pub struct PendingAddHTLCInfo { pub forward_info: PendingHTLCInfo }
